@@ -35,7 +35,7 @@ CHECKS = {
             "types/structure.py:StructureMetaType._read",
         ],
         "required_cells": ["compiled:True", "fallback", "align:True", "align:False", "endian:<", "endian:>",
-                           "explicit-offsets", "mixed-modes", "deep-folded-length-source"],
+                           "explicit-offsets", "mixed-modes", "deep-folded-length-source", "special:nocompile-flag"],
         "assumptions": ASSUME_COMMON,
     },
 }
@@ -69,7 +69,7 @@ CHECKS["C01"] = {
                        "types/int.py:Int._write", "types/packed.py:Packed._write", "types/enum.py:EnumMetaType._write",
                        "types/pointer.py:Pointer._write", "<compiled>"],
     "required_cells": ["pinned-witnesses", "align:True", "align:False", "endian:<", "endian:>", "feat:bits:signed", "feat:union",
-                       "feat:ptr", "feat:arr:struct", "deep-folded-length-source"],
+                       "feat:ptr", "feat:arr:struct", "deep-folded-length-source", "endian-switched-after-use", "explicit-forward-offsets"],
     "assumptions": ASSUME_COMMON,
 }
 
